@@ -56,6 +56,8 @@ def stmtOk (sc : List String) (inLoop : Bool) : Stmt → Bool
   | .write e => exprOk sc e
   | .sleep e => exprOk sc e
   | .brk => inLoop
+  -- W6, increment 1: a sketch with calls is not yet covered by `wf` (scope of a function body, prototypes before use)
+  | .call _ _ _ _ _ _ _ _ => false
 
 /-- globals in order: a fresh name each, initialiser over the earlier ones -/
 def globalsOk : List String → List (String × Ty × Expr) → Bool
@@ -84,6 +86,7 @@ def readsOk (sc : List String) (inLoop : Bool) : Stmt → Bool
   | .write e => exprOk sc e
   | .sleep e => exprOk sc e
   | .brk => inLoop
+  | .call _ _ _ _ _ _ _ _ => false          -- W6, increment 1: `Closed` keeps scripts with calls out (`tr_wf` does not speak about them)
 
 /-- top-level prologue: an assignment brings its target into scope for what follows -/
 def topReads (sc : List String) : Stmt → Option (List String)
@@ -145,6 +148,25 @@ def Stmt.klines : Stmt → List (LK × String)
   | .write e => [(.flat, s!"Serial.println({e.c});")]
   | .sleep e => [(.flat, s!"delay({e.c});")]
   | .brk => [(.flat, "break;")]
+  | .call x f _ _ _ _ _ args => [(.flat, callLine x f args)]
+
+/-- W6: `Stmt.flines` with brace kinds -/
+def Stmt.fklines (ls : C.TyEnv) : List String → Stmt → List (LK × String) × List String
+  | dcl, .seq a b =>
+    let r1 := a.fklines ls dcl
+    let r2 := b.fklines ls r1.2
+    (r1.1 ++ r2.1, r2.2)
+  | dcl, .assign x e =>
+    match ls.lookup x with
+    | some t => if dcl.contains x then ([(.flat, s!"{x} = {e.c};")], dcl) else ([(.flat, s!"{t.c} {x} = {e.c};")], x :: dcl)
+    | none => ([(.flat, s!"{x} = {e.c};")], dcl)
+  | dcl, s => (s.klines, dcl)
+
+def Helper.defKLines (h : Helper) : List (LK × String) :=
+  [(.open_, h.sig ++ " {")] ++ (h.body.fklines h.ls []).1 ++ h.retLines.map (fun l => (LK.flat, l)) ++ [(.close, "}")]
+
+def helperKLines (hs : List Helper) : List (LK × String) :=
+  (if 1 < hs.length then hs.map (fun h => (LK.flat, h.sig ++ ";")) else []) ++ hs.flatMap Helper.defKLines
 
 inductive Sec where | incl | glob | setupOpen | loopOpen | body
   deriving DecidableEq, Repr
@@ -153,6 +175,7 @@ inductive Sec where | incl | glob | setupOpen | loopOpen | body
 def CProg.klines (c : CProg) : List (Sec × LK × String) :=
   [(.incl, .flat, "#include <Arduino.h>")] ++
   c.globals.map (fun g => (Sec.glob, LK.flat, s!"{g.2.1.c} {g.1} = {g.2.2.c};")) ++
+  (helperKLines c.helpers).map (fun l => (Sec.body, l)) ++
   [(.setupOpen, .open_, "void setup() {"), (.body, .flat, "Serial.begin(9600);")] ++ c.setup.klines.map (fun l => (Sec.body, l)) ++ [(.body, .close, "}")] ++
   [(.loopOpen, .open_, "void loop() {")] ++ c.loop.klines.map (fun l => (Sec.body, l)) ++ [(.body, .close, "}")]
 
